@@ -471,6 +471,31 @@ def gTxInitRbOf (t : Tx) (pNone : Bool) (tgtNone : Bool) (tgtRb : Bool) (plNone 
       | "errors.IsNotFound(err)@r.transactions.GetByIndex#1" => true
       | _ => false }
 
+/-- the state ONE iteration of a phase loop of the transaction reconciler reads: the transaction, the
+    proposal of this iteration (found), and the loop flag as the iterations before it left it -/
+def gTxIterOf (t : Tx) (p : Proposal) (flag : Bool) : V2G :=
+  { n := fun k =>
+      match k with
+      | "transaction.Index" => t.index
+      | "proposal.Status.Phases.Validate.State" => phCode p.validate
+      | "proposal.Status.Phases.Commit.State" => phCode p.commit
+      | "proposal.Status.Phases.Apply.State" => phCode p.apply
+      | "proposal.Status.Phases.Abort.State" => phCode p.abort
+      | "proposal.Status.Phases.Validate.Failure" => optFCode p.vFailure
+      | "proposal.Status.Phases.Apply.Failure" => optFCode p.aFailure
+      | k => constCode k
+    b := fun k =>
+      match k with
+      | "proposal.Status.Phases.Validate != nil" => p.validate != .none
+      | "proposal.Status.Phases.Commit != nil" => p.commit != .none
+      | "proposal.Status.Phases.Apply != nil" => p.apply != .none
+      | "proposal.Status.Phases.Abort != nil" => p.abort != .none
+      | "allValidated" => flag
+      | "allCommitted" => flag
+      | "allApplied" => flag
+      | "allAborted" => flag
+      | _ => false }
+
 /-- Notes.  The loop flags (`allValidated`, …) are locals: their assignments are tokens of the
     skeleton (a dropped `= false` changes it); that a read of the flag after the loop sees what the
     single iteration assigned is Go's semantics of a local variable, stated in the table.
